@@ -346,6 +346,11 @@ struct val : tracked<K_VAL, true> {
   int id;
   bool moved = false;
   explicit val(int i) noexcept : id(i) {}
+  ~val() {
+    // a later read through a dangling reference shows up as payload -777 in the log
+    id = -777;
+    moved = true;
+  }
   val(const val& o) : tracked<K_VAL, true>(o), id(o.id), moved(o.moved) {}
   val(val&& o) noexcept : tracked<K_VAL, true>(std::move(o)), id(o.id), moved(o.moved) { o.moved = true; }
   val& operator=(const val& o) {
@@ -666,7 +671,10 @@ struct leaf_values<void> {
 
 // LvalueValue: the value is handed to the receiver as `const val&` (adaptors that keep it must copy; copies can be
 // made to throw by fault injection) instead of as an rvalue
-template <class VT, unifex::_block::_enum B, bool SendsDone, bool Affine, bool IsSched, bool LvalueValue = false>
+// InOp: the value lives inside this leaf's operation state and is handed out as an rvalue reference to it (a receiver
+// that destroys the operation before it has taken the value reads a dead object: `val` scribbles its id on destruction)
+template <class VT, unifex::_block::_enum B, bool SendsDone, bool Affine, bool IsSched, bool LvalueValue = false,
+          bool InOp = false>
 struct leaf : tracked<K_LEAFSND> {
   int id;
   explicit leaf(int i) noexcept : id(i) {}
@@ -689,6 +697,7 @@ struct leaf : tracked<K_LEAFSND> {
     R rcvr;
     bool cb_live = false;
     unifex::manual_lifetime<typename tok_t::template callback_type<cb>> stopcb;
+    std::conditional_t<InOp && !std::is_void_v<VT> && !std::is_same_v<VT, novalue>, std::optional<VT>, char> held{};
 
     template <class R2>
     op(int i, R2&& r) : rcvr((R2&&)r) {
@@ -811,6 +820,9 @@ struct leaf : tracked<K_LEAFSND> {
               auto& keep = lvalue_store();
               keep.emplace_back(pid);
               unifex::set_value(std::move(rcvr), static_cast<const val&>(keep.back()));
+            } else if constexpr (InOp) {
+              held.emplace(pid);
+              unifex::set_value(std::move(rcvr), std::move(*held));
             } else {
               unifex::set_value(std::move(rcvr), VT{pid});
             }
@@ -1174,7 +1186,7 @@ struct registrar {
 struct probe_stream : tracked<K_MISC> {
   int sid;
   explicit probe_stream(int s) noexcept : sid(s) {}
-  using next_t = leaf<val, unifex::_block::_enum::maybe, true, false, false>;
+  using next_t = leaf<val, unifex::_block::_enum::maybe, true, false, false, false, true>;  // element lives in the next-op
   using cleanup_t = leaf<novalue, unifex::_block::_enum::maybe, true, false, false>;
   next_t next() noexcept {
     ev("Sn %d", sid);
